@@ -9,6 +9,9 @@ package main
 //	    one run. m: b = Encoder.Encode per file; c = Encoder.EncodeWithContext (background context) per file;
 //	    s = StreamEncoder.WriteMessage per message + SequenceCompleted per file.
 //	    v=1: a stateful, transforming message validator (wrValidator below) instead of the pass-through one.
+//	    rs=1|2: the encoder is NOT new: it was first used on another (write-at) destination — 1: a complete sequence,
+//	    2: an interrupted one (stream: a message without SequenceCompleted; batch: an Encode that failed half-way) — and then
+//	    handed the destination with Reset(w, opts…). The model's answer is that of a new encoder: Reset = New.
 //	    pos: where the pre-filled destination is positioned (default: at its end, the documented use; anything else is the
 //	    caveat "seek to the end first" — model and code must still agree on what gets written, the properties are n/a).
 //	    f: the k-th operation on the destination fails after taking at most j bytes. c=1: keep calling after an error.
@@ -232,6 +235,7 @@ type wrCfg struct {
 	v                int
 	pre              []byte
 	pos              int // position of the destination when the encoder gets it
+	reuse            int // rs=
 	faults           map[int]int
 	cont             bool
 	files            []wFile
@@ -248,7 +252,7 @@ func wrParse(args []string) (*wrCfg, bool) {
 		return nil, false
 	}
 	c := &wrCfg{kind: kv["k"], mode: kv["m"], bs: atoi(kv["bs"]), arch: atoi(kv["a"]), hopt: atoi(kv["h"]), lmt: atoi(kv["l"]),
-		pv: atoi(kv["pv"]), v: atoi(kv["v"]), cont: kv["c"] == "1", files: files, raw: kv, fileToks: rest, faults: map[int]int{}}
+		pv: atoi(kv["pv"]), v: atoi(kv["v"]), reuse: atoi(kv["rs"]), cont: kv["c"] == "1", files: files, raw: kv, fileToks: rest, faults: map[int]int{}}
 	if p := kv["pre"]; p != "" && p != "-" {
 		b, err := hex.DecodeString(p)
 		if err != nil {
@@ -337,7 +341,22 @@ func wrRun(c *wrCfg, faults map[int]int) (o wrOut, bad bool) {
 		return err == nil
 	}
 	if c.mode == "s" {
-		se, err := encoder.NewStream(w, c.options()...)
+		var se *encoder.StreamEncoder
+		var err error
+		if c.reuse > 0 {
+			// a used stream encoder: another destination first, then Reset to this one
+			warmFit, _ := wrWarmFile.toProto(byte(c.arch))
+			se, err = encoder.NewStream(wrAt{&wrDest{}}, c.options()...)
+			if err == nil {
+				_ = se.WriteMessage(&warmFit.Messages[0])
+				if c.reuse == 1 {
+					_ = se.SequenceCompleted()
+				}
+				err = se.Reset(w, c.options()...)
+			}
+		} else {
+			se, err = encoder.NewStream(w, c.options()...)
+		}
 		if err != nil {
 			o.refused = true
 			return o, false
@@ -358,7 +377,20 @@ func wrRun(c *wrCfg, faults map[int]int) (o wrOut, bad bool) {
 			}
 		}
 	} else {
-		enc := encoder.New(w, c.options()...)
+		var enc *encoder.Encoder
+		if c.reuse > 0 {
+			// a used encoder: another destination first (rs=2: one that fails during the records), then Reset to this one
+			warmFit, _ := wrWarmFile.toProto(byte(c.arch))
+			wd := &wrDest{}
+			if c.reuse == 2 {
+				wd.faults = map[int]int{1: 3}
+			}
+			enc = encoder.New(wrAt{wd}, append(c.options(), encoder.WithWriteBufferSize(0))...)
+			_ = enc.Encode(warmFit)
+			enc.Reset(w, c.options()...)
+		} else {
+			enc = encoder.New(w, c.options()...)
+		}
 		for _, f := range c.files {
 			fit, ok := f.toProto(byte(c.arch))
 			if !ok {
@@ -376,6 +408,11 @@ func wrRun(c *wrCfg, faults map[int]int) (o wrOut, bad bool) {
 	o.log, o.out, o.raw = d.log, d.buf, d.raw
 	return o, false
 }
+
+// wrWarmFile: what a reused encoder wrote to its first destination (rs=)
+var wrWarmFile = wFile{msgs: []wMsg{{num: 18, fields: []wField{
+	{num: 253, bt: int(basetype.Uint32), tag: int(proto.TypeUint32), data: []byte{0x40, 0x41, 0x42, 0x43}},
+	{num: 1, bt: int(basetype.Uint8), tag: int(proto.TypeUint8), data: []byte{7}}}}}}
 
 func wrCheck(b []byte) string {
 	n, err := decoder.New(bytes.NewReader(b)).CheckIntegrity()
@@ -513,7 +550,7 @@ func execWrC(args []string) string {
 			}
 			for _, bs := range wrSizes {
 				cc := *c
-				cc.kind, cc.mode, cc.bs, cc.pos = kind, mode, bs, len(c.pre)
+				cc.kind, cc.mode, cc.bs, cc.pos, cc.reuse = kind, mode, bs, len(c.pre), 0
 				o, bad := wrRun(&cc, nil)
 				if bad {
 					return "bad-op"
@@ -705,6 +742,15 @@ func wrPre(rng *Rng, arch byte) string {
 	return "-"
 }
 
+// wrReuse: now and then the encoder is a used one (token " rs=<1|2>", else "")
+func wrReuse(rng *Rng) string {
+	if rng.Intn(5) != 0 {
+		return ""
+	}
+	count("reused-encoder")
+	return fmt.Sprintf(" rs=%d", 1+rng.Intn(2))
+}
+
 // wrPos: now and then a pre-filled destination is NOT positioned at its end (token " pos=<n>", else "")
 func wrPos(rng *Rng, pre string) string {
 	if pre == "-" || rng.Intn(6) != 0 {
@@ -743,11 +789,27 @@ func genEncWriters(emit func(string), tier string, rng *Rng) {
 		if rng.Intn(8) == 0 {
 			cont = 1
 		}
-		emit(fmt.Sprintf("wr k=%s bs=%d m=%s %s pre=%s%s f=- c=%d %s", kind, wrRandSize(rng), mode, g.toks(), pre, wrPos(rng, pre), cont, strings.Join(wrFileTokens(files), " ")))
+		emit(fmt.Sprintf("wr k=%s bs=%d m=%s %s pre=%s%s%s f=- c=%d %s", kind, wrRandSize(rng), mode, g.toks(), pre, wrPos(rng, pre), wrReuse(rng), cont, strings.Join(wrFileTokens(files), " ")))
 		count("wr/" + mode + "/" + kind)
 		count(fmt.Sprintf("files=%d", nfiles))
 		if pre != "-" {
 			count("prefilled")
+		}
+		if it%25 == 0 {
+			// directed: the caller's header carries a data size that differs from the real one only ABOVE the low byte
+			// (a header update keyed on a truncated comparison would be skipped) — random-access kinds, batch
+			g3 := wrGenOpts(rng)
+			f3 := wrGenFiles(rng, byte(g3.arch), 1, true, rng.Intn(2) == 0, g3.v1safe(rng))
+			probe := &wrCfg{kind: "plain", mode: "b", bs: 0, arch: g3.arch, hopt: g3.hopt, lmt: g3.lmt, pv: g3.pv, files: f3}
+			if o, bad := wrRun(probe, nil); !bad && len(o.results) == 1 && o.results[0] == "ok" && len(o.out) > 16 {
+				d := uint32(len(o.out) - 16)
+				f3[0].dataSize = d + 256*uint32(1+rng.Intn(3))
+				if d >= 256 && rng.Intn(2) == 0 {
+					f3[0].dataSize = d - 256
+				}
+				emit(fmt.Sprintf("wr k=%s bs=%d m=%s %s pre=- f=- c=0 %s", wrKinds[1+rng.Intn(3)], wrRandSize(rng), []string{"b", "c"}[rng.Intn(2)], g3.toks(), strings.Join(wrFileTokens(f3), " ")))
+				count("datasize-low-byte-equal")
+			}
 		}
 		if it%4 == 0 {
 			// cross-configuration comparison on the implementation itself
@@ -835,7 +897,7 @@ func genEncFaults(emit func(string), tier string, rng *Rng) {
 					kind = "seek"
 				}
 				bs := []int{0, 0, 1, 14, 4096, wrRandSize(rng)}[rng.Intn(6)]
-				emit(fmt.Sprintf("wrx k=%s bs=%d m=%s %s pre=%s%s c=0 %s", kind, bs, mode, g.toks(), pre, wrPos(rng, pre), ft))
+				emit(fmt.Sprintf("wrx k=%s bs=%d m=%s %s pre=%s%s%s c=0 %s", kind, bs, mode, g.toks(), pre, wrPos(rng, pre), wrReuse(rng), ft))
 				count("wrx/" + mode + "/" + kind)
 			}
 		}
@@ -864,7 +926,7 @@ func genEncFaults(emit func(string), tier string, rng *Rng) {
 				fs = append(fs, fmt.Sprintf("%d.%d", k, []int{0, 0, 1, 2, 5, 13, 14, 1000}[rng.Intn(8)]))
 			}
 			cont := rng.Intn(2)
-			emit(fmt.Sprintf("wr k=%s bs=%d m=%s %s pre=%s%s f=%s c=%d %s", kind, wrRandSize(rng), mode, g.toks(), pre, wrPos(rng, pre), strings.Join(fs, ","), cont, ft))
+			emit(fmt.Sprintf("wr k=%s bs=%d m=%s %s pre=%s%s%s f=%s c=%d %s", kind, wrRandSize(rng), mode, g.toks(), pre, wrPos(rng, pre), wrReuse(rng), strings.Join(fs, ","), cont, ft))
 			count(fmt.Sprintf("wr-faults/%s/c=%d", mode, cont))
 		}
 	}
